@@ -198,8 +198,10 @@ func init() {
 		h := c.heapGet(st, name, sort)
 		r := c.smt.declareFresh("bytesequal", "Bool")
 		at := func(s, i string) string { return sel(sel(h, app("sl_base", s)), app("+", app("sl_off", s), i)) }
-		c.smt.assume(eq(r, and(eq(app("sl_len", a), app("sl_len", b)),
-			fmt.Sprintf("(forall ((i Int)) (! (=> (and (<= 0 i) (< i (sl_len %s))) (= %s %s)) :pattern (%s)))", a, at(a, "i"), at(b, "i"), at(a, "i")))), "bytes.Equal")
+		k := c.smt.declareFresh("bytesdiff", "Int")
+		c.smt.assume(implies(r, and(eq(app("sl_len", a), app("sl_len", b)),
+			fmt.Sprintf("(forall ((i Int)) (! (=> (and (<= 0 i) (< i (sl_len %s))) (= %s %s)) :pattern (%s)))", a, at(a, "i"), at(b, "i"), at(a, "i")))), "bytes.Equal: true means equal contents")
+		c.smt.assume(implies(not(r), or(not(eq(app("sl_len", a), app("sl_len", b))), and(app("<=", "0", k), app("<", k, app("sl_len", a)), not(eq(at(a, k), at(b, k)))))), "bytes.Equal: false means a differing position")
 		return Val{T: resT, Term: r}
 	}
 	externalModels["bytes.Replace"] = func(fr *Frame, callee *ssa.Function, args []Val, resT types.Type, st *State, reach string, pos token.Pos) Val {
